@@ -582,6 +582,70 @@ Section V.
     - rewrite Forall_forall in Hrange. apply Hrange. apply nth_In. lia.
   Qed.
 
+  (* ---------------------------------------------------------------- *)
+  (* 7. any two qualifying share sets of one dealing give the same secret; dealings add *)
+
+  (* two (possibly different, differently sized, differently ordered) sets of at least deg+1 shares of the
+     same polynomial reconstruct the same value: the choice of the signing / resharing committee is immaterial *)
+  Theorem reconstruct_subset_independent : forall thr xs1 sh1 xs2 sh2 coefs s1 s2,
+      vss_reconstruct c thr xs1 sh1 = Ok s1 ->
+      vss_reconstruct c thr xs2 sh2 = Ok s2 ->
+      length sh1 = length xs1 -> length sh2 = length xs2 ->
+      (length coefs <= length xs1)%nat -> (length coefs <= length xs2)%nat ->
+      (forall i, (i < length xs1)%nat -> eqm q (nth i sh1 0) (horner coefs (nth i xs1 0))) ->
+      (forall i, (i < length xs2)%nat -> eqm q (nth i sh2 0) (horner coefs (nth i xs2 0))) ->
+      eqm q s1 s2.
+  Proof.
+    intros thr xs1 sh1 xs2 sh2 coefs s1 s2 H1 H2 L1 L2 C1 C2 P1 P2.
+    apply (eqm_trans q _ (hd 0 coefs)).
+    - exact (reconstruct_ge_t1 thr xs1 sh1 coefs s1 H1 L1 C1 P1).
+    - apply eqm_sym. exact (reconstruct_ge_t1 thr xs2 sh2 coefs s2 H2 L2 C2 P2).
+  Qed.
+
+  (* the pointwise sum of the shares of two dealings (what every party of the key generation stores as x_i)
+     is a sharing of the sum of the two secrets *)
+  Theorem reconstruct_additive : forall thr xs shA shB sh coefsA coefsB s,
+      vss_reconstruct c thr xs sh = Ok s ->
+      length sh = length xs ->
+      (length coefsA <= length xs)%nat -> (length coefsB <= length xs)%nat ->
+      (forall i, (i < length xs)%nat -> eqm q (nth i shA 0) (horner coefsA (nth i xs 0))) ->
+      (forall i, (i < length xs)%nat -> eqm q (nth i shB 0) (horner coefsB (nth i xs 0))) ->
+      (forall i, (i < length xs)%nat -> eqm q (nth i sh 0) (nth i shA 0 + nth i shB 0)) ->
+      eqm q s (hd 0 coefsA + hd 0 coefsB).
+  Proof.
+    intros thr xs shA shB sh coefsA coefsB s Hr Hl CA CB PA PB PS.
+    rewrite <- (horner_0 coefsA), <- (horner_0 coefsB), <- horner_padd, horner_0.
+    apply (reconstruct_ge_t1 thr xs sh (PolyProofs.padd coefsA coefsB) s Hr Hl).
+    - rewrite length_padd. lia.
+    - intros i Hi. rewrite horner_padd.
+      apply (eqm_trans q _ (nth i shA 0 + nth i shB 0)); [exact (PS i Hi)|].
+      apply eqm_add; [exact (PA i Hi)|exact (PB i Hi)].
+  Qed.
+
+  (* a share set that lies on a polynomial of admissible degree whose constant term differs from the value
+     reconstructed from another qualifying set cannot exist: one wrong share among deg+1 is not on the polynomial *)
+  Theorem reconstruct_wrong_secret_off_poly : forall thr xs sh coefs s,
+      vss_reconstruct c thr xs sh = Ok s ->
+      length sh = length xs ->
+      (length coefs <= length xs)%nat ->
+      ~ eqm q s (hd 0 coefs) ->
+      exists i, (i < length xs)%nat /\ ~ eqm q (nth i sh 0) (horner coefs (nth i xs 0)).
+  Proof.
+    intros thr xs sh coefs s Hr Hl Hc Hne.
+    assert (D : forall n, (n <= length xs)%nat ->
+               (forall i, (i < n)%nat -> eqm q (nth i sh 0) (horner coefs (nth i xs 0))) \/
+               (exists i, (i < n)%nat /\ ~ eqm q (nth i sh 0) (horner coefs (nth i xs 0)))).
+    { induction n as [|n IH]; intros Hn.
+      - left. intros i Hi. lia.
+      - destruct (IH ltac:(lia)) as [A|[i [Hi Hb]]].
+        + destruct (Z.eq_dec (nth n sh 0 mod q) (horner coefs (nth n xs 0) mod q)) as [E|E].
+          * left. intros i Hi. destruct (Nat.eq_dec i n) as [->|Hin]; [exact E|apply A; lia].
+          * right. exists n. split; [lia|exact E].
+        + right. exists i. split; [lia|exact Hb]. }
+    destruct (D (length xs) (le_n _)) as [A|B0]; [|exact B0].
+    exfalso. apply Hne. exact (reconstruct_ge_t1 thr xs sh coefs s Hr Hl Hc A).
+  Qed.
+
 End V.
 
 (* ------------------------------------------------------------------ *)
@@ -673,6 +737,43 @@ Section Examples.
     eexists. eexists. split; [vm_compute; reflexivity|].
     split; vm_compute; [discriminate|reflexivity].
   Qed.
+  Example reconstruct_subset_independent_ex : eqm 31 5 5.
+  Proof.
+    apply (reconstruct_subset_independent W toyW43_laws 3 [1; 2; 3] [18; 14; 24] [3; 1; 2] [24; 18; 14] [5; 6; 7] 5 5).
+    - vm_compute. reflexivity.
+    - vm_compute. reflexivity.
+    - reflexivity.
+    - reflexivity.
+    - cbn [length]. lia.
+    - cbn [length]. lia.
+    - intros i Hi. cbn [length] in Hi.
+      assert (K : (i = 0 \/ i = 1 \/ i = 2)%nat) by lia.
+      destruct K as [-> | [-> | ->]]; vm_compute; reflexivity.
+    - intros i Hi. cbn [length] in Hi.
+      assert (K : (i = 0 \/ i = 1 \/ i = 2)%nat) by lia.
+      destruct K as [-> | [-> | ->]]; vm_compute; reflexivity.
+  Qed.
+
+  (* 5 + 6x + 7x^2 and 9 + 2x + x^2 at 1,2,3: shares 18,14,24 and 12,17,24; sums mod 31: 30,0,17; secret 14 *)
+  Example reconstruct_additive_ex :
+    vss_reconstruct W 3 [1; 2; 3] [30; 0; 17] = Ok 14 /\ eqm 31 14 (hd 0 [5; 6; 7] + hd 0 [9; 2; 1]).
+  Proof.
+    split; [vm_compute; reflexivity|].
+    apply (reconstruct_additive W toyW43_laws 3 [1; 2; 3] [18; 14; 24] [12; 17; 24] [30; 0; 17] [5; 6; 7] [9; 2; 1] 14).
+    - vm_compute. reflexivity.
+    - reflexivity.
+    - cbn [length]. lia.
+    - cbn [length]. lia.
+    - intros i Hi. cbn [length] in Hi.
+      assert (K : (i = 0 \/ i = 1 \/ i = 2)%nat) by lia.
+      destruct K as [-> | [-> | ->]]; vm_compute; reflexivity.
+    - intros i Hi. cbn [length] in Hi.
+      assert (K : (i = 0 \/ i = 1 \/ i = 2)%nat) by lia.
+      destruct K as [-> | [-> | ->]]; vm_compute; reflexivity.
+    - intros i Hi. cbn [length] in Hi.
+      assert (K : (i = 0 \/ i = 1 \/ i = 2)%nat) by lia.
+      destruct K as [-> | [-> | ->]]; vm_compute; reflexivity.
+  Qed.
 End Examples.
 
 Print Assumptions check_indexes_spec.
@@ -688,3 +789,6 @@ Print Assumptions reconstruct_refuses.
 Print Assumptions create_reconstruct_roundtrip.
 Print Assumptions vss_fewer_hides.
 Print Assumptions vss_fewer_hides_exact.
+Print Assumptions reconstruct_subset_independent.
+Print Assumptions reconstruct_additive.
+Print Assumptions reconstruct_wrong_secret_off_poly.
